@@ -228,6 +228,14 @@ def run(ctx):
     ctx.verify(c_export.engine(), [c for c in c_export.VERIFY if c.key.startswith("hdl21.slice:")])
     # the positions a slice selects in its parent, in order (used by the resolver to peel strided / reversed slices)
     ctx.verify(c_export.engine(), c_export.VERIFY_INDICES, min_obligations={c_export.VERIFY_INDICES[0].key: 30})
+    from contracts import c_sliceres
+    ctx.verify(c_sliceres.engine(), c_sliceres.VERIFY, min_obligations={c_sliceres.KEY: 10})
+    key, obs, info = c_sliceres.rewrite_obligations()
+    for u in info.get("unsupported", []):
+        ctx.unsupported.append((key, u))
+    if len(obs) < 4 and not info.get("unsupported"):
+        ctx.checker_errors.append(f"only {len(obs)} obligations for the slice resolver's rewrite loop")
+    ctx.discharge(obs, key + " [per-connection loop body]", info)
     ctx.assumptions.append("slice steps: one scenario per constant step in [-%d, %d] (width, start, stop unbounded)"
                            % ((16, 16) if thorough else (4, 4)))
 
